@@ -32,7 +32,7 @@ METHODS = ("greedy", "random-greedy", "labels", "labels-agglom", "kahypar", "kah
 PARTITION_DIVISIVE = ("labels", "kahypar", "kahypar-balanced")
 NEED_MODULE = {"kahypar": "kahypar", "kahypar-balanced": "kahypar", "kahypar-agglom": "kahypar"}
 SIZE_VALUES = (2, 3, 2, 5, 1, 2, 3, 4)
-CALL_TIMEOUT = 20.0  # CPU seconds
+CALL_TIMEOUT = 60.0  # CPU seconds (the slowest call of the unchanged tree needs about 6 s on an idle core)
 
 _DEADLINE = None
 
@@ -236,7 +236,9 @@ def build_entries(inputs, output, plan, rng, methods, spaces):
         e["rs"] = rs
         entries.append(e)
 
-    presets = PRESETS
+    # the exhaustive presets are exponential in the number of tensors: beyond 9 tensors a slow answer is
+    # not a missing answer, so they are only asked on networks where they answer within seconds
+    presets = PRESETS if n <= 9 else tuple(p for p in PRESETS if not p.startswith("optimal"))
     for preset in presets:
         for api in APIS:
             add({"kind": "preset", "api": api, "preset": preset})
@@ -275,6 +277,8 @@ def build_entries(inputs, output, plan, rng, methods, spaces):
          "minimize": rng.choice(("flops", "size", "write", "max", "combo", "limit", "combo-256")),
          "search_outer": rng.choice((False, True))},
     ]
+    if n > 9:
+        objs = [o for o in objs if o["which"] != "OptimalOptimizer"]  # exponential: see the presets above
     for o in objs[: plan["objects"]] if plan["objects"] < len(objs) else objs:
         o["api"] = rng.choice(("find_path", "find_tree", "acp", "act"))
         add(o)
